@@ -61,7 +61,11 @@ impl ReliableSender {
         #[cfg(feature = "hotstuff_verif")]
         if crate::verif::capture(true, address, &data) {
             let (sender, receiver) = oneshot::channel();
-            let _ = sender.send(Bytes::from("Ack"));
+            if crate::verif::silent(&address) {
+                crate::verif::park(sender);
+            } else {
+                let _ = sender.send(Bytes::from("Ack"));
+            }
             return receiver;
         }
         let (sender, receiver) = oneshot::channel();
